@@ -9,8 +9,10 @@
 -/
 import NemoVerif.Lemmas.Dnf
 import NemoVerif.Lemmas.GroupExpand
+import NemoVerif.Lemmas.GroupVM
+import NemoVerif.Lemmas.GroupExpandAwait
 namespace NemoVerif.C07
-open NemoVerif NemoVerif.Dnf NemoVerif.GroupExpand
+open NemoVerif NemoVerif.Dnf NemoVerif.GroupExpand NemoVerif.GroupVM
 
 /-! ## `normalize_element_groups` -/
 
@@ -122,24 +124,68 @@ theorem order_independent (g : G) (es es' : List Nat) (hne : eval (fun _ => fals
     funext n; simp only [List.contains_eq_mem]; exact decide_eq_decide.2 (hset n)
   rw [this]
 
+/-! ## the fork / merge / wait head protocol (Models/GroupVM.lean)
+
+  `GroupVM` is the head-level machine: one branch head per and-clause, one member head per atom, `WaitForHeads`
+  as a count of parked heads, two-phase merging through a FIFO of MERGING heads, `random.choice` among ALL MERGING
+  descendants as an explicit, universally quantified argument.  It is compared with the real interpreter on every
+  run at head level (position and status of every head after every event, with the recorded tie-breaks). -/
+
+/-- The head protocol refines the clause machine, for every tie-break: with `choices` arbitrary, the root
+    head reaches the marker exactly when `Dnf.run` says so.  (No and-clause is empty: `ForkHead` with no label
+    would leave no head at all — not expressible in Colang source.) -/
+theorem vm_refines_clause_machine (d : Clauses) (hne : ∀ c ∈ d, c ≠ []) (es choices : List Nat) :
+    vmMarkers d es choices = run (Dnf.init d) es :=
+  runVM_eq es _ _ choices (Rel_init d hne)
+
+/-- **group_completes_at_first_sat_vm.**  For every group `g` (any nesting), every sequence of received events and
+    EVERY outcome of the tie-breaks: the head-level machine run on the clauses of the expanded group emits the
+    marker while processing `es[k]` iff `k` is the least index whose prefix set satisfies the formula. -/
+theorem group_completes_at_first_sat_vm (g : G) (hne : ∀ c ∈ toDnf (normalize g), c ≠ [])
+    (es choices : List Nat) (k : Nat) :
+    (vmMarkers (toDnf (normalize g)) es choices)[k]? = some true ↔
+      (k < es.length ∧ eval (seen es k) g = true ∧ ∀ j, j < k → eval (seen es j) g = false) := by
+  rw [vm_refines_clause_machine _ hne]
+  exact group_completes_at_first_sat g es k
+
+/-- The same with a syntactic hypothesis: no `and` group of `g` is empty (every group the grammar can spell). -/
+theorem group_completes_at_first_sat_vm_spelled (g : G) (hg : g.noEmptyAnd = true)
+    (es choices : List Nat) (k : Nat) :
+    (vmMarkers (toDnf (normalize g)) es choices)[k]? = some true ↔
+      (k < es.length ∧ eval (seen es k) g = true ∧ ∀ j, j < k → eval (seen es j) g = false) :=
+  group_completes_at_first_sat_vm g (toDnf_normalize_nonempty g hg) es choices k
+
+/-- Tie-breaks never change when (or whether) the group completes. -/
+theorem vm_tie_break_independent (d : Clauses) (hne : ∀ c ∈ d, c ≠ []) (es c1 c2 : List Nat) :
+    vmMarkers d es c1 = vmMarkers d es c2 := by
+  rw [vm_refines_clause_machine d hne, vm_refines_clause_machine d hne]
+
+/-- The merging loop: once some clause is complete, the root passes the group within the same event whatever
+    `random.choice` returns (invariant: every MERGING head is queued, at most one MERGING member per clause,
+    some head is MERGING; measure: queue length + 2 · MERGING members). -/
+theorem merging_always_completes (fuel : Nat) (vm : VM) (queue : List QItem) (choices : List Nat)
+    (hd : vm.done = false) (hI : I2 vm.brs queue) (hf : queue.length + 2 * totalMerging vm.brs < fuel) :
+    (mergeLoop fuel vm queue choices).1.done = true :=
+  mergeLoop_done fuel vm queue choices hd hI hf
+
 /-
-  Open items (full statements kept visible; carried by correspondence + oracle on every run, see
-  design_notes/C07.md):
+  Still open (kept visible):
 
-  T2  group_completes_at_first_sat_vm :
-        ∀ g es k, (the Colang interpreter restricted to one flow, run on `expandMatch g ++ [send marker]`,
-                   emits the marker while processing es[k])  ↔  (markers g es)[k]? = some true
-      i.e. the fork / two-phase merge / WaitForHeads-counting head protocol of `slide` and
-      `_advance_head_front` refines `Dnf.step`.  Not proved: `markers` is an abstraction of the protocol
-      ("one head per atom per and-clause"); the real element list is tied to it structurally
-      (`readBack_expandMatch` below + `readBack` run on the real list) and behaviourally (end-to-end runs).
+  T2' groupvm_is_corevm_partial :
+        `GroupVM.stepEvent` = `CoreVM.runToCompletion` (Models/CoreVM/Run.lean) restricted to one flow whose elements are
+        `expandMatch g ++ [send marker, match never]`, through `renderHeads` (positions / statuses of all heads).
+      GroupVM takes one macro-step per template segment (advance a matching head to its `WaitForHeads` / `MergeHeads`;
+      merge; promote) where CoreVM's `slide` takes one step per element.  What is missing is the symbolic execution of
+      `slide` over the segments of `expandClauses d k` (label look-ups, positions).  Until then this link is checked by
+      execution on every run: heads (position, status) of the REAL interpreter after every event = `renderHeads`, with the
+      recorded `random.choice` outcomes, and the real element list = `expandMatch g` (exactly) with `readBack` = clauses.
 
-  T3  await_group_same_formula :
-        `await g` / `when g` over flows f_i complete at es[k]  ↔  (markers g es')[k]? = some true
-        where es' reads "flow f_i finished" for atom i (and forgets flows that failed).
-      Not stated in Lean (`_expand_await_element` / `_expand_when_stmt_element` are not mirrored);
-      checked by execution only.  Inside this item lies the open finding on `when` groups that share a
-      flow Spec between clauses (known_findings.d/C07.json).
+  T3  await_group_same_formula (behaviour): `await g` over flows f_i completes at es[k] ↔ (markers g es')[k]? = some true
+      where es' reads "flow f_i finished" for atom i and forgets flows that failed.  The STRUCTURE of the await expansion is
+      mirrored and checked (`readBackAwait_expandAwait` below: per clause the same and-template over `$ref.Finished()`,
+      the or-level with scope and failure path); its run-time behaviour (child flows, FlowFinished / FlowFailed events,
+      scopes) needs the whole interpreter and is checked by execution (ops await / awaitf).  `_expand_when_stmt_element`
+      is not mirrored (ops when / whenmix / when2 / whenf: execution + oracle only).
 -/
 
 /-! ## the expanded element list -/
@@ -155,6 +201,19 @@ theorem readBack_expandMatch (g : G) : readBack (expandMatch g) = some (toDnf (n
 /-- ... and for any clause list and any start of the fresh-name counter. -/
 theorem readBack_expandClauses (d : Clauses) (k : Nat) : readBack (expandClauses d k).1 = some d := by
   simp only [readBack, readGroup_expandClauses]
+
+/-! ## `await <group of flows>` (T3, structure) -/
+
+/-- The checker run on the REAL element list of every generated `await <group>` accepts what the mirror of
+    `_expand_await_element` (+ `_expand_start_element`, + the and-template over `$ref.Finished()`) emits and reads
+    back the clauses of the normalised group: per clause every flow is started exactly once and exactly the started
+    references are awaited, `WaitForHeads.number` = flows of the clause (and-template) resp. number of clauses
+    (failure path), both exits close the scope. -/
+theorem readBackAwait_expandAwait (g : G) : readBackAwait (expandAwait g) = some (toDnf (normalize g)) := by
+  simp only [readBackAwait, expandAwait, readAwaitGroup_expand]
+
+theorem readBackAwait_expandAwaitClauses (d : Clauses) (k : Nat) : readBackAwait (expandAwaitClauses d k).1 = some d := by
+  simp only [readBackAwait, readAwaitGroup_expand]
 
 /-! ## non-vacuity and kernel-evaluated tests (labelled as tests: finite facts) -/
 
@@ -176,6 +235,11 @@ example : readBack [.catchPF (some 1), .fork 0 [3, 4], .label 3, .matchEv 0, .go
     .label 1, .merge 0, .catchPF none, .abort, .label 2, .merge 0, .wait 2, .catchPF none] = none := by decide
 example : readBack [.catchPF (some 1), .fork 0 [3, 4], .label 3, .matchEv 0, .goto 2, .label 4, .matchEv 1, .goto 2,
     .label 1, .merge 0, .catchPF none, .abort, .label 2, .wait 2, .merge 0, .catchPF none] = some [[0, 1]] := by decide
+-- non-vacuity of `hne` in the head-level theorems; tests of the machine with two clauses completing at the same event
+example : ∀ c ∈ toDnf (normalize ex1), c ≠ [] := by decide
+example : ex1.noEmptyAnd = true := by decide
+example : vmMarkers [[0, 1], [0]] [1, 0] [0] = [false, true] := by decide
+example : vmMarkers [[0, 1], [0]] [1, 0] [1] = [false, true] := by decide
 -- the hypothesis `hne` excludes exactly groups like `and []` (not expressible in Colang source)
 example : eval (fun _ => false) (.and []) = true := by decide
 
